@@ -1625,6 +1625,10 @@ func init() {
 			for _, t := range c16ArgTextCases() {
 				kC16ArgText.Do(c, t)
 			}
+			// 11. input files that are not regular files
+			for _, t := range c16SpecialCases() {
+				kC16Special.Do(c, t)
+			}
 			// 9. more files than descriptors
 			for _, t := range c16ManyCases(c.Quick()) {
 				kC16Many.Do(c, t)
